@@ -262,14 +262,17 @@ def HysteresisHigh : K := ‹Gen.hystHighNum› / ‹Gen.hystHighDen›
 def LimitLow : K := ‹Gen.limitLowNum› / ‹Gen.limitLowDen›
 def LimitHigh : K := ‹Gen.limitHighNum› / ‹Gen.limitHighDen›
 
+/-- first guess of `adjustStepSize` from the error norm ("Watch out for NaN!") -/
+def firstGuess (pow : K → K → K) (acc : K) (errFinite : Bool) (err : K) (errOrder : Nat) (h : K) : K :=
+  if !errFinite then MinShrink * h
+  else if err ≤ ‹0› ∧ ‹0› ≤ err then MaxGrow * h
+  else Safety * h * pow (acc / err) (‹1› / ‹errOrder›)
+
 /-- `AbstractIntegratorRep::adjustStepSize`.  `errFinite` is `isFinite(err)`; `umin`/`umax` are the user
 limits (`none` = −1 = not set).  Returns `(newStepSize, success)`. -/
 def adjustStepSize (pow : K → K → K) (acc : K) (umin umax : Option K)
     (errFinite : Bool) (err : K) (errOrder : Nat) (hWasArtificiallyLimited : Bool) (h : K) : K × Bool :=
-  let n0 : K :=
-    if !errFinite then MinShrink * h
-    else if err ≤ ‹0› ∧ ‹0› ≤ err then MaxGrow * h
-    else Safety * h * pow (acc / err) (‹1› / ‹errOrder›)
+  let n0 : K := firstGuess pow acc errFinite err errOrder h
   let n1 : K :=
     if h < n0 then (if hWasArtificiallyLimited ∨ n0 < HysteresisHigh * h then h else n0) else n0
   let n2 : K :=
